@@ -844,7 +844,8 @@ func (in *Interp) indexCheck(idx *Term, n int, signed bool) int {
 		}
 		return int(i)
 	}
-	// symbolic: in range?
+	// symbolic: in range? (compare at 64 bits; a negative signed index is huge unsigned)
+	idx = in.tf.Conv(idx, 64, signed)
 	w := idx.W
 	inRange := in.tf.Cmp(OUlt, idx, in.tf.Const(w, uint64(n)))
 	if !in.branch(inRange) {
